@@ -7,4 +7,6 @@ def check(rep, tier):
     core_backward.run_bounded(rep, tier)
     core_outgrads.run(rep, tier, only=("AO-value", "AO-dense", "AO-inductive"))
     tracer_primitive.run(rep, tier, only=("W4", "W2", "W3"))
-    core_rules.run(rep, tier, parts=("nodes", "defjvp"))
+    core_rules.run(rep, tier, parts=("nodes", "defjvp", "defvjp", "defvjp_argnum"))
+    from contracts import tracer_trace
+    tracer_trace.run(rep, tier, only=("TR-result", "TR-start"))
